@@ -223,7 +223,7 @@ def witness_configs(ctx):
         (F_KIDOK, [(1001 + i, 8, 0x04, 1, 2) for i in range(3)]),               # DOM only: first isKidOK calls collide
         (F_WSFACETS, [(2001 + i, 16, 0x01, 1, 3) for i in range(6)]),           # private schema parsers: first traversal
         (F_LAZYCM, [(3001 + i, (8, 16)[i % 2], 0x42, 1 + i % 2, 3) for i in range(6)]),
-        (F_CASEI, [(4001 + i, 4, 0x1800, 1, 1) for i in range(2)]),             # option i on shared range tokens              # shared pool, plain preload
+        (F_CASEI, [(4001 + i, 4, 0x1800, 1, 1) for i in range(1)]),             # option i on shared range tokens              # shared pool, plain preload
     ]
 
 
@@ -308,12 +308,14 @@ def run(ctx):
         return seq, conc
     # time budget: the quick tier must stay below 3 minutes even on a loaded machine, so the generated configurations
     # are a seed-determined sequence of which a prefix is run (at least 8); the number run is in the evidence
-    deadline = ctx.t0 + (95 if ctx.tier == "quick" else 1500)
+    deadline = ctx.t0 + (80 if ctx.tier == "quick" else 1500)
     jobs, outs = [], []
     with concurrent.futures.ThreadPoolExecutor(max_workers=4) as ex:
         for fid, cfgs in wit:                     # witnesses: stop a group as soon as its finding reproduced
-            if not ctx.find_known(fid):           # fixed findings: two configurations remain as a regression guard
-                cfgs = cfgs[:2]
+            if not ctx.find_known(fid):           # fixed findings: one configuration remains as a regression guard
+                cfgs = cfgs[:1]
+            else:
+                cfgs = cfgs[:3]
             for c in cfgs:
                 o = work((fid, c))
                 jobs.append((fid, c))
